@@ -883,6 +883,35 @@ def rule_printfields(crate):
             else:
                 yield step, e
 
+    matched_form = False
+    # the same decision written as a match with guards: `match op { None => .., Some(_) if exp.is_integer() => .., Some(_) => .. }`
+    for mm in walk(parm["body"]):
+        if mm.get("k") != "Match" or str(mm.get("src")) != "Normal" or not mentions_exp(mm) or len(mm.get("arms", [])) < 2:
+            continue
+        arms_ = mm["arms"]
+        kinds_ = [("paren" if has_paren(a_["body"]) else "delegated" if delegates(a_["body"]) else "bare") for a_ in arms_]
+        if "bare" not in kinds_ or len(set(kinds_)) == 1 or not any(mentions_exp(a_["body"]) for a_ in arms_):
+            continue
+        if not any("guard" in a_ for a_ in arms_) and "Bool" not in str(crate.ty(mm["scrut"])).title():
+            continue  # a dispatch on something else (e.g. on the base): not the exponent decision
+        mm_decided = True
+        for a_, kd in zip(arms_, kinds_):
+            if kd != "bare" or not mentions_exp(a_["body"]):
+                continue
+            gtests = {y["name"] for y in walk(a_.get("guard") or {}) if y.get("k") == "MethodCall"}
+            gneg = any(y.get("k") == "Unary" and y.get("op") == "Not" for y in walk(a_.get("guard") or {}))
+            others = set()
+            for b_ in arms_:
+                if b_ is not a_:
+                    others |= {y["name"] for y in walk(b_.get("guard") or {}) if y.get("k") == "MethodCall"}
+            if "is_integer" in gtests and not gneg:
+                out.ok("type-exponent:bare-only-if-integer", pf, pl, "the exponent is written without parentheses only in an arm guarded by is_integer()")
+            elif "is_integer" in others:
+                out.ok("type-exponent:bare-only-if-integer", pf, pl, "the bare arm follows arms guarded on is_integer() (the guard decides)")
+            else:
+                out.violation("type-exponent:bare-only-if-integer", pf, pl, "the exponent of a dimension expression is written without parentheses in a match arm that no is_integer() guard protects: `Length^(1/2)` is echoed as `Length^1/2`")
+        if mm_decided:
+            matched_form = True
     all_ifs = [x for x in walk(parm["body"]) if x.get("k") == "If" and x.get("else") is not None and mentions_exp(x)]
     nested = {id(y) for x in all_ifs for br in ("then", "else") for y in walk(x[br]) if y.get("k") == "If"}
     ifs = [x for x in all_ifs if id(x) not in nested]
@@ -904,7 +933,7 @@ def rule_printfields(crate):
                 out.ok("type-exponent:bare-only-if-integer", pf, pl, "the exponent is written without parentheses only under an is_integer() test (%s)" % alltests)
             else:
                 out.violation("type-exponent:bare-only-if-integer", pf, pl, "the exponent of a dimension expression is written without parentheses under the test %s, which does not include is_integer(): `Length^(1/2)` is echoed as `Length^1/2`" % alltests)
-    if not decided:
+    if not decided and not matched_form:
         # no decision in the arm: look at the parts of the arm that render the exponent
         blk = peel(parm["body"])
         parts = []
